@@ -7,5 +7,8 @@ chk('C14', 'model_checking',
     'alphabet of rates is finite (powers of two times 1e9, commensurate); wall-clock execution_time is excluded from comparison; numpy RNG reseeded through the public seed call',
     'explicit-state BFS to fixed point on the real gv object + exhaustive call-order enumeration with differential oracle', 'DESIGN.md 5/C14')
 
+import glob as _glob
+for _f in sorted(_glob.glob(os.path.join(os.path.dirname(os.path.abspath(__file__)) if '__file__' in dir() else '/verif', 'manifest.d', 'C*.py'))):
+    exec(open(_f).read())
 _claimed = set(CHECKS)
 NOT_APPLICABLE = [{'property_id': p, 'reason': 'check not built yet in this revision (work in progress; see DESIGN.md section 9)'} for p in ALL if p not in _claimed]
